@@ -45,6 +45,12 @@ for f in sorted(glob.glob('/verif/seeded/*/meta.json')):
 out.append('')
 out.append(f"{n} seeded changes kept; {miss_first} were missed by the quick tier as it stood when they arrived. Every miss was traced to a cause and the check strengthened (see the *As built* notes in §4 and §9); none was made to pass by loosening an oracle.")
 out.append('')
+out.append('**Seeded changes that are (still) not caught by the check of the property they were written for, and why:**\n')
+out.append('* `C08-c`, `C17-d2` (and the general theme of *when* a waiting player is let in once other players leave): the change lets a waiting player in one hand earlier than the pinned code does, in a history in which other players leave. C08 fixes the newcomer\'s timing only with "other players staying put", and both C08 and C17 speak of the seats that *are* able to play; positions and button are right for that set. Catching these would need a model of the activation rules copied from the implementation - a regression oracle, not a property oracle - and would raise alarms on legitimate changes (benign patch b10 changes exactly such timing).')
+out.append('* `C11-e2`: removes the raise offer from a player who is level with the wager and holds at least the minimum bet but not more than the minimum raise. C11 demands a raise offer only for a stack above the minimum raise; no listed property is violated.')
+out.append('* `C11-e1`: a short all-in lowers the minimum raise, so a player who cannot make a full raise is additionally offered raise. C11 does not forbid the extra offer; carrying the undersized raise out is a C12 violation, and **C12 catches the change** (`undersized-raise/minimum`).')
+out.append('* `C04-e1`: an overflow in the below-the-wager test of `Raise` for levels next to `MinInt64`. The action (raise) was offered, so C04 is not concerned; it is C12\'s "a request below the current wager is refused", and **C12 catches the change** (`below-wager-not-refused/huge`).')
+out.append('')
 out.append('### 10.3 Changes that keep every property (false-alarm experiment)\n')
 out.append('Six sub-agents were given the 20 property statements and asked for the opposite of a seeded defect: realistic, non-trivial changes of behaviour or internal structure that keep all properties true (`/verif/benign/b1..b6`: patch and the agent\'s notes). `tools/run_benign.sh` applies each in a scratch worktree and runs the checks of the touched area; **every check must stay silent**.\n')
 out.append('| patch | area | what changes (all of it allowed by the properties) |')
